@@ -722,6 +722,19 @@ func init() {
 		return Iface{t: w.eng.opaqueType("reflect.rtype"), v: &Opaque{kind: "rtype", v: iv.t}}
 	})
 
+	// fresh, pairwise distinct identifiers
+	reg("github.com/rs/xid.New", func(w *World, th *Thread, fn *ssa.Function, args []Value) Value {
+		n, _ := w.userData["xid"].(int)
+		n++
+		w.userData["xid"] = n
+		a := make(Array, 12)
+		for i := range a {
+			a[i] = int64(0)
+		}
+		a[10], a[11] = int64(n>>8&0xff), int64(n&0xff)
+		a[0] = int64(0x42)
+		return a
+	})
 	registerTimeIntrinsics(reg)
 	registerContextIntrinsics(reg)
 	registerStringIntrinsics(reg)
